@@ -51,7 +51,7 @@ def run(ctx):
     for fail_at in (1, 2, 3):
         R = driver.run_update(ctx, N=2, nsteps=3, fail_at=fail_at)
         muts = driver.history_mutations(R)
-        ok = R.exc is not None and not muts and len(R.mineral.attrs["orientations"]) == 1 and len(R.mineral.attrs["fractions"]) == 1
+        ok = R.exc is not None and not muts and len(R.mineral.attrs["orientations"]) == R.nsnap and len(R.mineral.attrs["fractions"]) == R.nsnap
         ctx.ob("C01.fail-untouched", f"solver failure at step {fail_at}", ok,
                f"exception={R.exc!r} history mutations={[(k, w) for _, k, w, _ in muts]}", loc)
     who_may_write(ctx)
@@ -87,17 +87,18 @@ def appends(ctx, R, N, loc):
     ctx.ob("C01.append-once", tag, ok and after and owner,
            f"history events {kinds}; after last solver step: {after}; issued by {[e.func for *_, e in muts]}", loc)
     m = R.mineral
-    ctx.ob("C01.append-once", tag + ":lengths", len(m.attrs["orientations"]) == 2 and len(m.attrs["fractions"]) == 2,
+    ctx.ob("C01.append-once", tag + ":lengths", len(m.attrs["orientations"]) == R.nsnap + 1 and len(m.attrs["fractions"]) == R.nsnap + 1,
            f"{len(m.attrs['orientations'])}, {len(m.attrs['fractions'])} snapshots after one update", loc)
 
 
 def aliasing(ctx, R, N, loc):
     if R.exc is not None:
         return
-    same = all(a == b for a, b in zip(R.A0.flat, R.A0_saved.flat)) and all(a == b for a, b in zip(R.f0.flat, R.f0_saved.flat))
-    ids = {id(R.A0), id(R.f0)}
+    same = all(a == b for a, b in zip(R.A0.flat, R.A0_saved.flat)) and all(a == b for a, b in zip(R.f0.flat, R.f0_saved.flat)) \
+        and all(all(x == y for x, y in zip(a.flat, b.flat)) for a, b in R.older)
+    ids = {id(R.A0), id(R.f0)} | {id(a) for a, _ in R.older}
     hits = [e for e in R.I.trace if e.kind in ("store", "inplace") and any(isinstance(d, int) and d in ids for d in e.data)]
-    first = R.mineral.attrs["orientations"][0] is R.A0 and R.mineral.attrs["fractions"][0] is R.f0
+    first = R.mineral.attrs["orientations"][R.nsnap - 1] is R.A0 and R.mineral.attrs["fractions"][R.nsnap - 1] is R.f0
     ctx.ob("C01.no-alias", f"N={N}", same and not hits and first,
            f"previous snapshot unchanged: {same}; in-place events on it: {[(e.kind, e.loc) for e in hits]}; still first in history: {first}", loc)
 
